@@ -31,6 +31,7 @@ V3 = "puresnmp_plugins/mpm/v3.py"
 patch("rev-D1-multiset-id", "C07", "4406f9b-fix__multiset_validates_the_response_against_the_request_id_.diff")
 patch("rev-D19-lazy-trap-delivered", "C19", "8a9ecff-fix__trap_listener_only_delivers_decoded_notifications.diff")
 patch("rev-D18-untyped-secparams", "C20", "9143978-fix__USM_security_parameters_wrong_ASN1_type_refused.diff")
+patch("rev-D18b-subclass-secparams", "C20", "55a2240-fix__USM_security_parameters_exact_types_not_subclasses.diff")
 patch("rev-D16-usmstats-as-data", "C12", "6a4d84c-fix__usmStats_counters_in_ordinary_responses_are_data.diff")
 patch("rev-D14-unauth-report-status", "C09", "97c83a0-fix__unauthenticated_report_error_status_no_longer_ends_walk.diff")
 
